@@ -252,7 +252,22 @@ func c18Literal(r *rng.R) string {
 	return gen.Word(r, 1, 8)
 }
 
-var c18Values = []string{"plain", "a<b&c>\"d'e", "<w:t>x</w:t>", "&amp;", "multi word value", "值 中文", "", "{{v1}}", "x}}y{{"}
+var c18Values = []string{"plain", "a<b&c>\"d'e", "<w:t>x</w:t>", "&amp;", "multi word value", "值 中文", "", "{{v1}}", "x}}y{{", "ctl\x01char", "bell\x07 and \x1f", "bad\xffutf8", "nul\x00byte"}
+
+// xmlCarried is what an XML part can carry of a value: characters outside the XML Char production and invalid
+// UTF-8 are replaced by U+FFFD by every correct writer.
+func xmlCarried(v string) string {
+	var sb strings.Builder
+	for _, r := range v {
+		ok := r == 0x9 || r == 0xA || r == 0xD || (r >= 0x20 && r <= 0xD7FF) || (r >= 0xE000 && r <= 0xFFFD) || (r >= 0x10000 && r <= 0x10FFFF)
+		if !ok || r == utf8.RuneError {
+			sb.WriteRune(0xFFFD)
+		} else {
+			sb.WriteRune(r)
+		}
+	}
+	return sb.String()
+}
 
 type c18Model struct {
 	paras    []*c18Para
@@ -516,7 +531,7 @@ func c18Case(c *core.Ctx) *core.Result {
 			name := rest[loc[2]:loc[3]]
 			nPh := utf8.RuneCountInString(rest[loc[0]:loc[1]])
 			if v, ok := m.vars[name]; ok {
-				for _, ch := range v {
+				for _, ch := range xmlCarried(v) {
 					want = append(want, fch{ch, "*"})
 				}
 			} else {
@@ -624,7 +639,7 @@ func c18Case(c *core.Ctx) *core.Result {
 		}
 		want := regexp.MustCompile(`\{\{(\w+)\}\}`).ReplaceAllStringFunc(bt, func(mm string) string {
 			if v, ok := m.vars[mm[2:len(mm)-2]]; ok {
-				return v
+				return xmlCarried(v)
 			}
 			return mm
 		})
